@@ -183,6 +183,8 @@ impl WalManager {
     /// Returns an error if the record cannot be written.
     pub fn log(&self, record: &WalRecord) -> Result<()> {
         self.ensure_active_log()?;
+        #[cfg(grafeo_verif)]
+        grafeo_common::verif::yield_point("wal.log.after_ensure");
 
         let mut guard = self.active_log.lock();
         let log_file = guard
